@@ -185,10 +185,14 @@ def rule_r3(ctx):
         ctx.check("R3", f"{cn} stores no reference name", not bad, c, c.node,
                   f"{cn} keeps the name {bad} of what it refers to: a rename leaves the annotation pointing at the old name",
                   how="field list", construct=f"{cn} name fields {bad}")
-    ser = {"_serialize_sharding_spec": ("tensor_name", "sharding_spec.value.name"),
-           "serialize_node_device_configuration": ("configuration_id", "node_device_configuration.configuration.name")}
-    for fn, (fld, src) in ser.items():
+    # sources are written relative to the function's record parameter (`<p>.value.name`): the parameter is found by
+    # position (the spec / configuration is the first one that is not the proto being filled), not by spelling
+    ser = {"_serialize_sharding_spec": ("tensor_name", ".value.name"),
+           "serialize_node_device_configuration": ("configuration_id", ".configuration.name")}
+    for fn, (fld, suffix) in ser.items():
         f = repo.func(f"onnx_ir.serde:{fn}")
+        recs = [q for q in f.params if any(isinstance(x, ast.Attribute) and norm(x) == q + suffix for x in own_nodes(f.node))]
+        src = (recs[0] if recs else "<record>") + suffix
         st = [n for n in own_nodes(f.node) if isinstance(n, ast.Assign) and isinstance(n.targets[0], ast.Attribute) and n.targets[0].attr == fld]
         ok = len(st) == 1
         if ok:
